@@ -65,6 +65,17 @@ class Ctx:
         self.assumptions: list = []
         self.notes: dict = {}
         self.exhaustive = False
+        self.replaying = False
+        self._case_of: dict = {}        # tid -> (runner "module:function", case)  - what a replay file needs to re-run one case
+        self._trace_of: dict = {}       # tid -> (trace module, cfg, group_key)
+
+    def pmap(self, fn, cases: list, **kw) -> list:
+        """core.pmap that also remembers, per case id ('tid'), how to run the case again (for replay files)."""
+        runner = f"{fn.__module__}:{fn.__name__}"
+        for c in cases:
+            if isinstance(c, dict) and "tid" in c:
+                self._case_of[c["tid"]] = None if c["tid"] in self._case_of else (runner, c)
+        return pmap(fn, cases, **kw)
 
     @property
     def quick(self) -> bool:
@@ -223,6 +234,7 @@ class Ctx:
         by_tid = {}
         for e in events:
             by_tid.setdefault(e["tid"], []).append(e)
+            self._trace_of[e["tid"]] = (module, cfg, group_key)
 
         def one(idx_part):
             idx, part = idx_part
@@ -300,6 +312,13 @@ class Ctx:
                 rdir.mkdir(parents=True, exist_ok=True)
                 payload = {"property": self.prop, "clause": clause, "tier": self.tier, "seed": self.seed,
                            "detail": v.get("detail"), "event": v.get("event"), "mc": v.get("mc")}
+                rc = self._case_of.get(v.get("tid"))
+                if rc:
+                    payload["runner"], payload["case"] = rc
+                if v.get("tid") in self._trace_of:
+                    payload["trace"] = list(self._trace_of[v["tid"]])
+                if only_prefixes:
+                    payload["only_prefixes"] = list(only_prefixes)
                 h = hashlib.sha1(json.dumps(payload, sort_keys=True, default=str).encode()).hexdigest()[:12]
                 path = rdir / f"{h}.json"
                 path.write_text(json.dumps(payload, indent=1, default=str))
@@ -334,11 +353,44 @@ class Ctx:
             "wall_s": round(time.time() - self.t0, 2),
             "violations": len(violations),
         }
-        (VERIF / "evidence").mkdir(exist_ok=True)
-        (VERIF / "evidence" / f"{self.prop}.json").write_text(json.dumps(ev, indent=1, default=str) + "\n")
+        if not self.replaying:
+            (VERIF / "evidence").mkdir(exist_ok=True)
+            (VERIF / "evidence" / f"{self.prop}.json").write_text(json.dumps(ev, indent=1, default=str) + "\n")
         self.log(f"done: {evaluations} evaluations, {self.events_validated} events validated, "
                  f"{len(violations)} violation(s), {sum(len(v) for v in kf_seen.values())} known-finding event(s)")
         return 1 if violations else 0
+
+
+def generic_replay(ctx: "Ctx", path: str) -> int:
+    """bin/check <Cxx> --replay FILE for checks without a replay of their own: the recorded case is run again on the
+    current tree by the function that ran it in the check (payload 'runner' / 'case'), the resulting events are judged
+    by the same trace specification, and the verdict is printed.  Without a recorded case (model-level violations, or
+    events assembled from several runs) the recorded event itself is judged again."""
+    import importlib
+    payload = json.load(open(path))
+    ctx.replaying = True
+    if payload.get("mc"):
+        raise MachineryError("this file records a violation found by TLC in the model, not in the implementation: "
+                             "re-run the check; the counterexample is in the 'detail' field")
+    trace = payload.get("trace")
+    if not trace:
+        raise MachineryError("the replay file names no trace specification")
+    module, cfg, group_key = trace
+    if payload.get("runner") and payload.get("case") is not None:
+        modname, fname = payload["runner"].split(":")
+        fn = getattr(importlib.import_module(modname), fname)
+        out = fn(payload["case"])
+        events = out if isinstance(out, list) else [out]
+        print(f"re-ran 1 case with {payload['runner']}: {len(events)} event(s)", flush=True)
+    else:
+        events = [payload["event"]]
+        print("no runnable case recorded: judging the recorded event again", flush=True)
+    for e in events:
+        brief = {k: v for k, v in e.items() if k in ("tid", "k", "label", "exit", "cmd", "crash", "out")}
+        print("  event " + json.dumps(brief, default=str)[:600], flush=True)
+    ctx.validate(module, cfg, events, group_key=group_key)
+    pref = tuple(payload["only_prefixes"]) if payload.get("only_prefixes") else None
+    return ctx.finish(evaluations=len(events), distinct_nontrivial=1, rule="replay of one recorded case", only_prefixes=pref)
 
 
 def printed_tuples(out: str, tag: str) -> list:
